@@ -585,9 +585,24 @@ def job_options(job):
                     a, b = mv_from(alg, ak_, list(av_)), mv_from(alg, bk, list(bv))
                     r = _safe(lambda: getattr(alg, name)(a, b) if binary else getattr(alg, name)(a))
                     val = ('value', O.nz(fr.mv_to_ref(r[1]))) if r[0] == 'value' else r
+                    # grade selection of the filtered result (filter() leaves grades partially stored - also in graded mode): the selected
+                    # part is the same element under every option
+                    sub = None
+                    if name in ('gp', 'op', 'add', 'sub') and r[0] == 'value' and base.get('filter_grade', True):
+                        sub = []
+                        for g_ in range(alg.d + 1):
+                            q_ = _safe(lambda: r[1].filter().grade(g_))
+                            sub.append(('value', O.nz(fr.mv_to_ref(q_[1]))) if q_[0] == 'value' else ('raise', q_[1].split(':')[0]))
                     if base_res is None:
-                        base_res = val
+                        base_res, base_sub = val, sub
                         continue
+                    if sub is not None and base_sub is not None and val[0] == 'value' and base_res[0] == 'value':
+                        for g_, (s1_, s0_) in enumerate(zip(sub, base_sub)):
+                            if not (s1_[0] == s0_[0] and (s1_[0] == 'raise' or _eqtol(s1_[1], s0_[1]))):
+                                percat[('filter-grade', name)] = percat.get(('filter-grade', name), 0) + 1
+                                if percat[('filter-grade', name)] <= 2:
+                                    out['failures'].append({'config': v, 'op': f'{name}(a, b).filter().grade({g_})', 'a': showmv(ak, av), 'b': showmv(bk, bv),
+                                                            'what': 'grade selection of a filtered result differs from the default options', 'got': str(s1_)[:200], 'expected': str(s0_)[:200]})
                     same = val[0] == base_res[0] and (val[0] == 'raise' and val[1].split(':')[0] == base_res[1].split(':')[0] or val[0] == 'value' and _eqtol(val[1], base_res[1]))
                     complete = True
                     if v.get('graded') and r[0] == 'value' and r[1].keys():
